@@ -548,5 +548,93 @@ theorem c18_shape_RosterToml_Roster :
     Shapes.tree_RosterToml_Roster =
    ["List[].ServerIdentity"] := rfl
 
+theorem c18_shape_config_parseServiceConfig_c18 :
+    Shapes.app_config_parseServiceConfig_c18 =
+   ["assign:si:=conv{}", "range:name,sc:=configs{", "parseServiceIdentity",
+     "assign:sid,err:=parseServiceIdentity(name,sc.Suite,sc.Public,sc.Private)", "if:(err!=nil)",
+     "else", "assign:si=append(si,sid)", "}", "network.ServiceIdentities", "sort.Sort",
+     "return:si"] := rfl
+
+theorem c18_shape_config_parseServerServiceConfig_c18 :
+    Shapes.app_config_parseServerServiceConfig_c18 =
+   ["assign:si:=conv{}", "range:name,sc:=configs{", "parseServiceIdentity",
+     "assign:sid,err:=parseServiceIdentity(name,sc.Suite,sc.Public,\"\")", "if:(err!=nil)",
+     "else", "assign:si=append(si,sid)", "}", "network.ServiceIdentities", "sort.Sort",
+     "return:si"] := rfl
+
+theorem c18_shape_config_parseServiceIdentity_c18 :
+    Shapes.app_config_parseServiceIdentity_c18 =
+   ["ServiceFactory.Suite", "assign:suite:=onet.ServiceFactory.Suite(name)", "if:(suite==nil)",
+     "return:srvid,xerrors.Errorf(\"\",name)", "else", "if:(suite.String()!=suiteName)",
+     "suite.Scalar", "assign:private:=suite.Scalar()", "if:(priv!=\"\")",
+     "encoding.StringHexToScalar", "assign:private,err=encoding.StringHexToScalar(suite,priv)",
+     "if:(err!=nil)", "return:srvid,xerrors.Errorf(\"\",name,err.Error())",
+     "encoding.StringHexToPoint", "assign:public,err:=encoding.StringHexToPoint(suite,pub)",
+     "if:(err!=nil)", "return:srvid,xerrors.Errorf(\"\",name,err.Error())",
+     "network.NewServiceIdentity",
+     "assign:si:=network.NewServiceIdentity(name,suite,public,private)", "return:si,nil"] := rfl
+
+theorem c18_shape_config_CothorityConfig_GetServerIdentity_c18 :
+    Shapes.app_config_CothorityConfig_GetServerIdentity_c18 =
+   ["suites.Find", "assign:suite,err:=suites.Find(hc.Suite)", "if:(err!=nil)",
+     "return:nil,xerrors.Errorf(\"\",err)", "encoding.StringHexToScalar",
+     "assign:private,err:=encoding.StringHexToScalar(suite,hc.Private)", "if:(err!=nil)",
+     "return:nil,xerrors.Errorf(\"\",err)", "encoding.StringHexToPoint",
+     "assign:point,err:=encoding.StringHexToPoint(suite,hc.Public)", "if:(err!=nil)",
+     "return:nil,xerrors.Errorf(\"\",err)", "network.NewServerIdentity",
+     "assign:si:=network.NewServerIdentity(point,hc.Address)", "si.SetPrivate",
+     "assign:si.Description=hc.Description", "parseServiceConfig",
+     "assign:si.ServiceIdentities=parseServiceConfig(hc.Services)",
+     "if:(hc.WebSocketTLSCertificateKey!=\"\")", "if:(hc.URL!=\"\")",
+     "assign:si.URL=strings.Replace(hc.URL,\"\",\"\",0)", "else", "Address.Port", "strconv.Atoi",
+     "assign:p,err:=strconv.Atoi(si.Address.Port())", "if:(err!=nil)",
+     "return:nil,xerrors.Errorf(\"\")",
+     "assign:si.URL=fmt.Sprintf(\"\",si.Address.Host(),(p+1))", "else", "assign:si.URL=hc.URL",
+     "return:si,nil"] := rfl
+
+theorem c18_shape_config_ServerToml_ToServerIdentity_c18 :
+    Shapes.app_config_ServerToml_ToServerIdentity_c18 =
+   ["suites.Find", "assign:suite,err:=suites.Find(s.Suite)", "if:(err!=nil)",
+     "return:nil,xerrors.Errorf(\"\",err)", "assign:pubR:=strings.NewReader(s.Public)",
+     "encoding.ReadHexPoint", "assign:public,err:=encoding.ReadHexPoint(suite,pubR)",
+     "if:(err!=nil)", "return:nil,xerrors.Errorf(\"\",err)", "network.NewServerIdentity",
+     "assign:si:=network.NewServerIdentity(public,s.Address)", "assign:si.URL=s.URL",
+     "assign:si.Description=s.Description", "parseServerServiceConfig",
+     "assign:si.ServiceIdentities=parseServerServiceConfig(s.Services)", "return:si,err"] := rfl
+
+theorem c18_shape_config_Group_Toml_c18 :
+    Shapes.app_config_Group_Toml_c18 =
+   ["assign:servers:=make(conv,len(g.Roster.List))", "range:i,si:=g.Roster.List{",
+     "encoding.PointToStringHex", "assign:pub,err:=encoding.PointToStringHex(suite,si.Public)",
+     "if:(err!=nil)", "return:nil,xerrors.Errorf(\"\",err)", "assign:services:=make(conv)",
+     "range:_,sid:=si.ServiceIdentities{", "ServiceFactory.Suite",
+     "assign:suite:=onet.ServiceFactory.Suite(sid.Name)", "encoding.PointToStringHex",
+     "assign:pub,err:=encoding.PointToStringHex(suite,sid.Public)", "if:(err!=nil)",
+     "return:nil,xerrors.Errorf(\"\",err)", "suite.String",
+     "assign:services[sid.Name]=ServerServiceConfig{Public:pub,Suite:suite.String()}", "}",
+     "suite.String",
+     "assign:servers[i]=&ServerToml{Address:si.Address,Suite:suite.String(),Public:pub,Description:si.Description,Services:services,URL:si.URL}",
+     "}", "return:&GroupToml{Servers:servers},nil"] := rfl
+
+theorem c18_shape_config_ReadGroupDescToml_c18 :
+    Shapes.app_config_ReadGroupDescToml_c18 =
+   ["assign:group:=&GroupToml{}", "toml.DecodeReader",
+     "assign:md,err:=toml.DecodeReader(f,group)", "if:(err!=nil)",
+     "return:nil,xerrors.Errorf(\"\",err)", "ambiguousKeys", "assign:err:=ambiguousKeys(md,2)",
+     "if:(err!=nil)", "return:nil,xerrors.Errorf(\"\",err)", "range:i,s:=group.Servers{",
+     "if:(s.Suite==\"\")", "assign:s.Suite=\"\"", "s.ToServerIdentity",
+     "assign:en,err:=s.ToServerIdentity()", "if:(err!=nil)",
+     "return:nil,xerrors.Errorf(\"\",err)", "assign:entities[i]=en",
+     "assign:descs[en]=s.Description", "}", "onet.NewRoster",
+     "assign:el:=onet.NewRoster(entities)", "return:&Group{el,descs},nil"] := rfl
+
+theorem c18_shape_struct_ServiceIdentities_Less_c18 :
+    Shapes.network_struct_ServiceIdentities_Less_c18 =
+   ["return:(strings.Compare(srvids[i].Name,srvids[j].Name)==-1)"] := rfl
+
+theorem c18_shape_struct_ServiceIdentities_Swap_c18 :
+    Shapes.network_struct_ServiceIdentities_Swap_c18 =
+   ["assign:srvids[i],srvids[j]=srvids[j],srvids[i]"] := rfl
+
 
 end C18
